@@ -517,6 +517,9 @@ fn run_state(f: &[&str]) -> String {
                     std::mem::forget(l);
                 }
                 st.open.clear();
+                if std::env::var("HX_DEBUG").is_ok() {
+                    eprintln!("CASE {}", f.get(1).unwrap_or(&""));
+                }
                 "-".to_string()
             }
             "init" => {
